@@ -126,4 +126,38 @@ theorem discarded_only_fetch_add :
     ∀ s ∈ Gen.sites, s.loc = "discarded" → s.kind = "load" ∨ s.kind = "fetch_add" := by
   decide
 
+/-! ### the minimum segment size in force -/
+
+/-- the release rule, exactly: a release that is not on top becomes a segment iff what is left of it after the alignment
+padding and the 8 header bytes is non-empty and at least the minimum segment size IN FORCE (the value in the header now) -/
+theorem release_rule (c : Cfg) (a : A) (off size : Nat) (h0 : off ≠ 0) (hs : size ≠ 0) :
+    ((a.freelistDealloc c off size).1 = true ↔
+      (alignUp 8 off - off) + NODE < size ∧ a.minSeg ≤ size - ((alignUp 8 off - off) + NODE)) := by
+  unfold A.freelistDealloc A.tryNew
+  rw [if_neg (by omega)]
+  simp only
+  by_cases h1 : (alignUp 8 off - off) + NODE ≥ size
+  · rw [if_pos h1]; simp only; constructor
+    · intro h; cases h
+    · intro h; omega
+  · rw [if_neg h1]
+    by_cases h2 : size - ((alignUp 8 off - off) + NODE) < a.minSeg
+    · rw [if_pos h2]; simp only; constructor
+      · intro h; cases h
+      · intro h; omega
+    · rw [if_neg h2]; simp only; constructor
+      · intro _; omega
+      · intro _; trivial
+
+/-- `set_minimum_segment_size(n)` on a writable arena: the minimum in force IS `n` afterwards (whatever it was — it can
+be lowered as well as raised) and nothing else changes; so by `release_rule` the very next release is judged against `n` -/
+theorem minimum_in_force (c : Cfg) (s : St) (n : Nat) (hro : c.ro = false) :
+    (setMinSeg c s n).minSeg = n ∧ (setMinSeg c s n).mem = s.mem ∧ (setMinSeg c s n).allocated = s.allocated ∧
+    (setMinSeg c s n).discarded = s.discarded ∧ (setMinSeg c s n).sentinel = s.sentinel ∧
+    ∀ free, ((setMinSeg c s n).abs free) = { s.abs free with minSeg := n } := by
+  simp [setMinSeg, hro, St.abs, St.cap]
+
+example : ((({ cap := 256, allocated := 200, minSeg := 4, discarded := 0, free := [] } : A).freelistDealloc
+    { sync := false, kind := .opt, ro := false, unify := false, reserved := 0, retries := 5, dataOffset := 1 } 17 24).1 = true) := by decide
+
 end Rarena.C20
